@@ -21,7 +21,7 @@ CLAIMS = {
    tech="kind-dispatch coverage of the equality / hashing / ordering entry points",
    text="Decides: Equals, RawEquals and the set hash cover every kind of type with a panicking residual, and the set ordering covers the three primitive kinds.",
    note="Not decided: reflexivity/symmetry/transitivity of number equality, hash/equality coherence for numbers, trichotomy (value-level). "),
- "C04": dict(rules=["C04.op-prologue","C04.convert-wrapper","C04.call-marks"],
+ "C04": dict(rules=["C04.op-prologue","C04.convert-wrapper","C04.call-marks","C04.stdlib-mark-tolerance"],
    tech="AST shape rule on 21 operation methods (mark prologue) + typestate for payload access + must-pass-through of WithMarks in the convert wrapper and Function.Call",
    text="Decides: every operation method tests, unmarks and re-marks ALL its operands (or purely delegates); payload assertions in operation methods happen only after the prologue; the convert wrapper and function.Call re-apply the marks they strip on every success return.",
    note="Not decided: value equality of marked and unmarked runs, mark handling inside AllowMarked implementations (exempted by the property). "),
@@ -37,6 +37,14 @@ CLAIMS = {
    tech="sibling agreement of the positional/variadic loops + dominance (must-pass-through) in Function.Call + who-may-call Spec.Impl/Spec.Type",
    text="Decides: both argument loops of returnTypeForValues and Call read the same Parameter flags with the same exits; variadic argument errors carry the adjusted index; Spec.Impl runs only in Call, dominated by a successful returnTypeForValues on the same args, by the unknown short-circuit exit and by a recovering defer; the implementation's result is returned only after TestConformance; the RefineResult defer is registered unconditionally for typed results.",
    note="Not decided: behaviour for all flag combinations at run time; panics inside the refinement defer itself. "),
+ "C11": dict(rules=["C11.accessor-guards","C12.unknown-guards","C04.stdlib-mark-tolerance","C11.req-table"],
+   tech="Spec-driven typestate: relational guard worlds over go/cfg for every Type/Impl callback of the function.Spec literals, entry states taken from the Parameter declarations, preconditions of partial accessors tabled and cross-checked against the accessors' own guards",
+   text="Decides a necessary condition of 'never a Go panic / never an internal-panic error': in every Type and Impl callback of the standard functions, each partial accessor (AsString, AsBigFloat, True, LengthInt, ElementIterator, AsValueSlice/Map/Set, ...) called on an argument or on an element of an argument is dominated by guards excluding every state (null, unknown, marked) that the parameter declaration — or the nature of elements — admits.",
+   note="Not decided: totality against Go run-time panics that need value ranges (index arithmetic, format state machine, datetime); agreement of the static and dynamic return type predictions (needs evaluation of the Type callbacks); helpers that receive values through parameters of their own are analysed only where the subject can be attributed to args. "),
+ "C12": dict(rules=["C12.unknown-guards","C11.req-table"],
+   tech="Spec-driven typestate (known-bit): guard dominance over go/cfg in Type callbacks (unknown by contract), AllowUnknown parameters and elements of arguments",
+   text="Decides a necessary condition of 'replacing arguments or nested parts by unknowns cannot turn success into failure': every known-only accessor in a Type callback, on an AllowUnknown parameter in an Impl callback, or on an element of any argument is dominated by IsKnown/IsWhollyKnown on the subject or its container (including the 'exit unless wholly known for every argument' loop idiom).",
+   note="Not decided: that refined results admit the concrete results (length bounds, prefixes) and that known parts agree — value-level. "),
  "C20": dict(rules=["C20.no-payload-write","C20.no-global-write","C20.closure-state","C20.builder-copy","C20.set-storage","C20.no-alias-out","C20.no-retention-in"],
    tech="ownership / alias / effect analysis over go/ssa (origin tracing with field-sensitive callee summaries): who may write payload memory, what escapes through results, what is retained from parameters, which escaping closures write captured state",
    text="Decides: no function writes memory reached through Value.v, marker.realV/marks, unknownType.refinement or a typeImpl record of anything it did not allocate; nothing writes package-level state after init; no escaping closure writes a captured variable; a refinement record is never shared between a value and the mutable builder; every function returning a set returns a fresh bucket map and buckets are not shared while Add appends in place; exported accessors returning Go references return copies; exported constructors do not retain caller-owned slices/maps/pointers (documented transfers tabled).",
